@@ -53,7 +53,7 @@ def run(rep, tier, args):
         dbharness.run_walks_parallel(hbin, "history", FINDING_WALKS, fp, nproc=2)
         rep.judge_trace("Trace_History", tcfg, fp, name="C12-findings", key_fn=key, max_divergent=5)
     # B2: simulated behaviours of the spec
-    nsim, depth = (40, 14) if not thorough else (600, 14)
+    nsim, depth = (40, 14) if not thorough else (250, 14)     # RocksDB open/close per restart dominates the cost
     sr = vlib.require_clean(vlib.tlc("Sim_History", "Sim_History.cfg", workers=1, simulate=nsim, depth=depth + 1),
                             "simulate")
     if sr.violated:
@@ -77,7 +77,7 @@ def run(rep, tier, args):
         rep.count_case(w)
     rep.judge_trace("Trace_History", tcfg, tp2, name="C12-b2", key_fn=key)
     # B3: random histories of the real code
-    n = 60 if not thorough else 1200
+    n = 60 if not thorough else 400
     tp3 = os.path.join(wd, "trace-b3.ndjson")
     dbharness.run_random_parallel(hbin, "history-random", tp3, n,
                                   extra=["--len", 16, "--maxh", 5, "--regime", "keep"], nproc=8)
